@@ -93,6 +93,8 @@ class Sim:
             return "sanitizer:%s" % (key or "unknown")
         if st is not None and st < 0:
             return "signal:%d" % (-st)
+        if st in (98, 99):
+            return "shimfail:%d" % st          # the simulated-OS shim gave up (harness problem, not a verdict)
         return "exit:%s" % st
 
 
